@@ -26,11 +26,26 @@ _ENG_CACHE = {}
 MAXIT = 300000
 
 
-def build_script(sd, idx, override_seed=None, policy=None):
-    """deterministic (seed, idx) -> (desc, kind, RDScript); sized so a run takes a few ms"""
+def build_script(sd, idx, override_seed=None, policy=None, sibling=None):
+    """deterministic (seed, idx) -> (desc, kind, RDScript); sized so a run takes a few ms.
+    sibling=j: same engine kind, same shape (cells, species, reactions) but other boundary conditions / environment
+    map / constants / state - what a cache keyed on part of the configuration would confuse with the original."""
     use_repo()
     r = gen.rng_for(sd, "C08", idx)
     kind_ = r.choice(engines.KINDS)
+    if r.random() < 0.12:
+        # constant-propensity catalytic network (tau-leap with the same Poisson mean >= 12 at every step)
+        from vf.checks import c07
+        desc, _, dt = c07.gen_tally_case(sd, idx)
+        rd = gen.Rendering(r, molecule_state=True)
+        system = gen.render_system(desc, rd)
+        nst = r.choice([50, 200])
+        ms = gen.mild_sys(r)
+        sseed = r.randrange(2 ** 32) if override_seed is None else override_seed
+        script = simhelp.make_script(system, r, dt_si=dt, t_sample_si=[0.0, dt * nst], policy=policy or "on_t_sample", t_max_si=dt * nst,
+                                     usys=(ms[0], ms[1], "molecule"), isp="none", seed=sseed)
+        return desc, "tauleap", script, {"engine": "tauleap", "space": desc["space"]["type"], "cells": gen.ncells(desc["space"]),
+                                          "species": 3, "policy": "on_t_sample", "nsteps_planned": nst, "dt": dt, "family": "catalytic"}
     big = r.random() < 0.5
     sp_kind = r.choice(["grid", "graph"])
     opts = {"space": sp_kind, "explicit_chstt": 0.2, "integer_state": True, "state_counts": (1, 40), "p_zero": 0.1,
@@ -38,6 +53,21 @@ def build_script(sd, idx, override_seed=None, policy=None):
             "grid": {"dims": (2, 6) if big else (1, 3), "max_cells": 80 if big else 12},
             "graph": {"nodes": (10, 40) if big else (1, 6), "simple": False, "p_edge": 0.15 if big else 0.45}}
     desc = gen.rand_system(r, opts)
+    if sibling is not None:
+        rs = gen.rng_for(sd, "C08sib", idx, sibling)
+        sp_ = desc["space"]
+        if sp_["type"] == "grid":
+            sp_["bc"] = dict(rs.choice([b for b in gen.BCS if b != sp_["bc"]]))
+            sp_["cell_env"] = [rs.randrange(len(desc["envs"])) for _ in sp_["cell_env"]]
+        else:
+            for e_ in sp_["edges"]:
+                e_["sfc"] *= rs.uniform(0.5, 2.0)
+            for nd_ in sp_["nodes"]:
+                nd_["env"] = rs.randrange(len(desc["envs"]))
+        for x_ in desc["reactions"]:
+            for kk_ in ("kf", "kr"):
+                x_[kk_] = ({e: v * 1.7 for e, v in x_[kk_].items()} if isinstance(x_[kk_], dict) else x_[kk_] * 1.7)
+        desc["state"] = [float(rs.randint(1, 60)) for _ in gen.state_of(desc)]
     if r.random() < 0.5:
         # some entries well above 100 molecules (normal-approximation branch of the redistribution)
         desc["state"] = [x if r.random() < 0.5 else float(r.randint(100, 400)) for x in gen.state_of(desc)]
@@ -166,8 +196,14 @@ def run_variant(case):
     hist = []
     if case.get("history"):
         for hidx in case["history"]:
-            # something else simulated earlier in this process (any kind / space / size), finalized or abandoned
-            d2, k2, s2, i2 = build_script(sd, hidx)
+            # something else simulated earlier in this process (any kind / space / size), finalized or abandoned;
+            # or a sibling of the script under test (same shape, other configuration); or the very same script
+            if hidx == "same":
+                d2, k2, s2, i2 = build_script(sd, idx)
+            elif isinstance(hidx, list):
+                d2, k2, s2, i2 = build_script(sd, idx, sibling=hidx[1])
+            else:
+                d2, k2, s2, i2 = build_script(sd, hidx)
             e2 = get_engine(k2, r.random() < 0.5)
             e2.setup(s2)
             e2.iterate_n(r.choice([0, 1, 10, 100, 100000]))
@@ -285,7 +321,8 @@ def main():
             for v in range(nvar):
                 variants.append({"seed": sd, "idx": i, "variant": v, "mode": MODES[v % len(MODES)] if v < len(MODES) else rr.choice(MODES),
                                  "reuse": rr.random() < 0.5,
-                                 "history": [rr.randrange(nscripts) + 100000 for _ in range(rr.choice([0, 0, 1, 2, 3]))]})
+                                 "history": [rr.choice([rr.randrange(nscripts) + 100000, rr.randrange(nscripts) + 100000, ["sib", rr.randrange(4)], "same"])
+                                             for _ in range(rr.choice([0, 0, 1, 2, 3]))]})
         # scripts whose reference hit the harness iteration cap have nothing comparable: do not run their variants
         done_ok = {c["idx"] for c, r_ in zip(refs, ref_res) if r_["status"] == "ok" and r_["value"]["complete"]}
         variants = [v for v in variants if v["idx"] in done_ok]
